@@ -35,13 +35,16 @@ package exit
 
 //@ func (*Handler).HandleStreamOpen$1
 //@ prop C19
+//@ modifies *
 //@ requires domainAllowed ==> (exists k in 0..len(h.cfg.AllowedDomains): patMatch(h.cfg.AllowedDomains[k], destAddr))
 
 //@ func (*Handler).HandleStreamOpen
 //@ prop C19
+//@ modifies *
 
 //@ func (*Handler).handleStreamOpenAsync
 //@ prop C19
+//@ modifies *
 //@ requires domainAllowed ==> (exists k in 0..len(h.cfg.AllowedDomains): patMatch(h.cfg.AllowedDomains[k], destAddr))
 //@ after call (*Handler).isAllowed let okByRoute = $ret && (exists j in 0..len(h.cfg.AllowedRoutes): ipInNet(h.cfg.AllowedRoutes[j], ip))
 //@ at call DialContext assert (domainAllowed && old(exists k in 0..len(h.cfg.AllowedDomains): patMatch(h.cfg.AllowedDomains[k], destAddr))) || okByRoute
@@ -51,6 +54,7 @@ package exit
 
 //@ func (*Handler).AddAllowedRoute
 //@ prop C19
+//@ modifies *
 //@ check bounds
 //@ ensures len(h.cfg.AllowedRoutes) == old(len(h.cfg.AllowedRoutes)) + 1
 //@ ensures h.cfg.AllowedRoutes[old(len(h.cfg.AllowedRoutes))] == network
@@ -58,6 +62,7 @@ package exit
 
 //@ func (*Handler).RemoveAllowedRoute
 //@ prop C19
+//@ modifies *
 //@ check bounds alloc
 //@ requires network != nil
 //@ loop 0 invariant -1 <= rangeindex && rangeindex < len(h.cfg.AllowedRoutes) && len(kept) <= rangeindex + 1 && cap(kept) == len(h.cfg.AllowedRoutes) && base(kept) != base(h.cfg.AllowedRoutes) && base(kept) != 0 && offset(kept) == 0
